@@ -119,6 +119,10 @@ def elem_type(kind, field, node=None):
         return 'stmt'
     if field == '_all' and kind == 'Dict':
         return 'dictelt'
+    if field in ('_args', '_bases'):
+        return 'arglike'
+    if field == '_all' and kind == 'Compare':
+        return 'cmpelt'
     info = grammar.field_info(kind, field)
     if info is None:
         return None
@@ -140,6 +144,8 @@ POOLS = {
     'withitem': snippets.WITHITEM, 'excepthandler': snippets.HANDLER, 'excepthandler_star': snippets.HANDLER_STAR,
     'match_case': snippets.MATCH_CASE, 'pattern': snippets.PATTERN, 'comprehension': snippets.COMPREHENSION,
     'type_param': snippets.TYPE_PARAM, 'identifier': snippets.IDENT, 'dictelt': snippets.DICT_ELT,
+    'arglike': ['x', 'f(y)', 'p + q', '*st', 'kw=1', 'k2=a + b', '**kws', '(i, j)', 'lambda: z', 'ü', '*(a or b)'],
+    'cmpelt': ['x', 'f(y)', 'p + q', '-n', 'a.b', '(p < q)', '(i, j)', 'not n', 'p and q', 'c[d]'],
 }
 
 PARSE_AS = {'target': 'expr', 'excepthandler_star': 'excepthandler'}
@@ -171,6 +177,13 @@ def parse_elem(et, src):
         if not isinstance(d, ast.Dict) or len(d.keys) != 1:
             raise SyntaxError('not a single dict element')
         return (d.keys[0], d.values[0])
+    if et == 'arglike':
+        c = ast.parse('f(' + src + ')', mode='eval').body
+        if not isinstance(c, ast.Call) or len(c.args) + len(c.keywords) != 1:
+            raise SyntaxError('not a single arglike')
+        return ((c.args or c.keywords)[0],)
+    if et == 'cmpelt':
+        return (snippets.parse_elem('expr', src),)
     return (snippets.parse_elem(PARSE_AS.get(et, et), src),)
 
 
@@ -184,7 +197,7 @@ def needs_wrap(et, node, kind='', field='', src=''):
             isinstance(node, (ast.Tuple, ast.List, ast.Set, ast.Dict, ast.ListComp, ast.GeneratorExp, ast.SetComp,
                               ast.DictComp, ast.MatchSequence, ast.MatchMapping)):
         return False
-    if et in ('expr', 'target'):
+    if et in ('expr', 'target', 'cmpelt'):
         if isinstance(node, ast.Starred):
             return False
         if kind == 'BoolOp':
@@ -217,6 +230,8 @@ def join_slice_src(kind, field, et, node, srcs):
         return ' '.join(srcs)
     if kind == 'MatchOr':
         return ' | '.join(srcs)
+    if kind == 'Compare':
+        return ' != '.join(srcs)
     return ', '.join(srcs)
 
 
@@ -232,7 +247,7 @@ OPTION_POOL = [
 
 
 def opts_json(opts):
-    return {'pars': str(opts.get('pars', 'auto')), 'norm': str(opts.get('norm', False)),
+    return {'pars': str(opts.get('pars', 'auto')), 'norm': str(opts.get('norm', False)), 'op': str(opts.get('op', '')),
             'raw': str(opts.get('raw', False)), 'trivia': repr(opts.get('trivia', True)),
             'all': repr(sorted(opts.items(), key=lambda kv: kv[0]))}
 
@@ -242,11 +257,11 @@ def opts_json(opts):
 
 class Plan:
     __slots__ = ('path', 'kind', 'field', 'vfield', 'form', 'start', 'stop', 'idx', 'et', 'srcs', 'codeform', 'op',
-                 'opts', 'quant', 'lo', 'length', 'desc', 'corrupt')
+                 'opts', 'quant', 'lo', 'length', 'desc', 'corrupt', 'view')
 
     def describe(self):
         return {k: getattr(self, k, None) for k in ('path', 'kind', 'field', 'form', 'start', 'stop', 'idx', 'et',
-                                                     'srcs', 'codeform', 'op', 'opts', 'corrupt')}
+                                                     'srcs', 'codeform', 'op', 'opts', 'corrupt', 'view')}
 
 
 def has_docstr(node):
@@ -296,6 +311,13 @@ def candidates(tree):
                 out.append((node, path, fname, 'single' + q))
         if kind == 'Dict':
             out.append((node, path, '_all', 'list'))
+        elif kind == 'Call':
+            out.append((node, path, '_args', 'list'))
+        elif kind == 'ClassDef':
+            out.append((node, path, '_bases', 'list'))
+        elif kind == 'Compare':
+            out.append((node, path, '_all', 'list'))
+            out.append((node, path, '_all', 'list'))
     return out
 
 
@@ -329,9 +351,15 @@ def plan_edit(rng: random.Random, tree, weights=None) -> Plan | None:
         if field == '_body':
             p.lo = 1 if has_docstr(node) else 0
             n = len(node.body) - p.lo
+        elif field == '_all' and kind == 'Compare':
+            p.lo = 0
+            n = 1 + len(node.comparators)
         elif field == '_all':
             p.lo = 0
             n = len(node.keys)
+        elif field in ('_args', '_bases'):
+            p.lo = 0
+            n = len(node.args if kind == 'Call' else node.bases) + len(node.keywords)
         else:
             p.lo = 0
             n = len(getattr(node, field))
@@ -345,6 +373,9 @@ def plan_edit(rng: random.Random, tree, weights=None) -> Plan | None:
                 if rng.random() < 0.5:
                     p.start, p.stop = a, b
             k = rng.choice((0, 0, 1, 1, 1, 2, 2, 3))
+            if rng.random() < 0.25:  # pure insertion at any (also negative / out-of-range) position
+                p.stop = p.start = rand_bound(rng, n)
+                k = rng.choice((1, 1, 2))
             p.srcs = [rng.choice(pool) for _ in range(k)]
             # an element of the container's own sequence type would be spliced, not nested (d06 "put as one"): the
             # abstract request is only unambiguous for elements of other kinds
@@ -352,6 +383,8 @@ def plan_edit(rng: random.Random, tree, weights=None) -> Plan | None:
                 p.srcs = [s for s in p.srcs if s not in ('p and q', 'p or q')]
             elif kind == 'MatchOr':
                 p.srcs = [s for s in p.srcs if s != 'p5 | p6']
+            elif kind == 'Compare':
+                p.srcs = [s for s in p.srcs if s != '(p < q)']
         elif r < 0.8:
             p.form = 'one'
             p.idx = rng.randint(-n - 1, n) if rng.random() < 0.3 else (rng.randrange(n) if n else 0)
@@ -368,7 +401,32 @@ def plan_edit(rng: random.Random, tree, weights=None) -> Plan | None:
             p.srcs = []  # delete
         else:
             p.srcs = [rng.choice(pool)]
+    p.view = None
+    if fclass == 'list' and p.et != 'cmpelt' and rng.random() < 0.22:
+        # the same kind of request made through a sub-view `field[vlo:vhi]`: indices are then relative to the view
+        n = p.length
+        vlo = rng.choice((None, 0, rng.randint(0, n), rng.randint(0, n), rng.randint(-n - 1, -1) if n else 0))
+        vhi = rng.choice((None, n, rng.randint(0, n), rng.randint(0, n + 1), rng.randint(-n, -1) if n else None))
+        r = range(n)[vlo:vhi]
+        if r.stop >= r.start:  # (an inverted view bound is refused by pfst like an inverted slice; not exercised here)
+            m = r.stop - r.start
+            p.view = (vlo, vhi)
+            if p.form == 'slice':
+                p.start, p.stop = rand_bound(rng, m), rand_bound(rng, m)
+                if rng.random() < 0.6 and isinstance(p.start, int) and isinstance(p.stop, int):
+                    a, b = sorted((p.start if p.start >= 0 else max(0, p.start + m), p.stop if p.stop >= 0 else max(0, p.stop + m)))
+                    p.start, p.stop = a, b
+                if p.srcs and rng.random() < 0.35:
+                    p.stop = p.start = rand_bound(rng, m)
+            else:
+                p.idx = rng.randint(-m - 1, m) if rng.random() < 0.3 else (rng.randrange(m) if m else 0)
     p.codeform = rng.choice(('src', 'src', 'ast', 'fst'))
+    if p.et in ('arglike', 'cmpelt'):
+        p.codeform = 'src'
+    if p.et == 'cmpelt' and p.form == 'slice' and p.srcs:
+        # an insertion needs an extra operator (d06 "an extra operator MUST be added"): give one via the `op` option
+        if rng.random() < 0.8:
+            p.opts = dict(p.opts, op=rng.choice(('==', '<', 'is not', 'in', '>=')))
     p.op = None
     p.corrupt = None
     return p
@@ -389,8 +447,14 @@ WRONG_POOL = {'expr': ('stmt', 'pattern', 'keyword', 'comprehension'), 'target':
               'excepthandler_star': ('match_case', 'expr'), 'match_case': ('excepthandler', 'expr'),
               'pattern': ('stmt', 'comprehension', 'keyword'), 'comprehension': ('stmt', 'keyword'),
               'type_param': ('stmt', 'keyword'), 'identifier': ('stmt',), 'dictelt': ('stmt', 'comprehension')}
-CORRUPTIONS = ('badsrc', 'badsrc', 'wrongcat', 'wrongcat', 'badopt', 'consumed', 'nonroot', 'ownroot', 'ownchild',
-               'one_false', 'badidx', 'inverted', 'below_min')
+CORRUPTIONS = ('badsrc', 'badsrc', 'wrongcat', 'wrongcat', 'badopt', 'badopt', 'badopt', 'consumed', 'nonroot',
+               'ownroot', 'ownchild', 'one_false', 'badidx', 'inverted', 'below_min')
+# out-of-range *values* of options that matter for the slot being edited are the interesting ones: a value that passes a
+# lax early check is only rejected deep inside the handler
+BAD_OPTS_STMT = [{'pep8space': 2}, {'pep8space': 3}, {'pep8space': -1}, {'pep8space': 7}, {'elif_': 2}, {'docstr': 'maybe'},
+                 {'trivia': 'bogus'}, {'trivia': ('all', 'line', 1)}, {'trivia': 'block+x'}, {'trivia': 2.5}]
+BAD_OPTS_EXPR = [{'pars': 'x'}, {'pars': 2}, {'op_side': 'middle'}, {'norm': 'bad'}, {'pars_walrus': 'x'},
+                 {'pars_arglike': 3}, {'set_norm': 'x'}, {'norm_self': 'y'}, {'args_as': 'nonsense'}, {'op': '=>'}]
 
 
 def corrupt_plan(rng: random.Random, p: Plan):
@@ -411,7 +475,13 @@ def corrupt_plan(rng: random.Random, p: Plan):
         if rng.random() < 0.4:
             p.opts = dict(p.opts, coerce=False)
     elif c == 'badopt':
-        p.opts = dict(rng.choice(BAD_OPTS))
+        r = rng.random()
+        if r < 0.45:
+            p.opts = dict(rng.choice(BAD_OPTS_STMT if p.et in ('stmt', 'excepthandler', 'excepthandler_star', 'match_case') else BAD_OPTS_EXPR))
+        elif r < 0.6:
+            p.opts = dict(rng.choice(BAD_OPTS_STMT + BAD_OPTS_EXPR))
+        else:
+            p.opts = dict(rng.choice(BAD_OPTS))
     elif c in ('consumed', 'nonroot', 'ownroot', 'ownchild'):
         if p.form == 'del' or not p.srcs:
             return corrupt_plan(rng, p)
@@ -458,6 +528,11 @@ def oracle(plan: Plan, pre_src: str, tab: Tables, mode='exec') -> Oracle:
         o.newS = [[0]]
     o.law = True
     o.expValid = True
+    if plan.et in ('arglike', 'cmpelt'):
+        # the merged order / the operator choice is not determined by a pure AST: SliceLaw + NothingElse judge the field,
+        # the spec (ArglikeOrderOk / OpsLaw) judges ordering and operators; no whole-tree expectation
+        o.expCompiles = True
+        return o
     tree = ast.parse(pre_src, mode=mode)
     node = node_at(tree, plan.path)
     f = plan.field
@@ -472,15 +547,23 @@ def oracle(plan: Plan, pre_src: str, tab: Tables, mode='exec') -> Oracle:
             for li, lst in enumerate(lists):
                 sub = lst[plan.lo:]
                 new = [_copy.deepcopy(el[li]) for el in elems]
-                n = len(sub)
+                if plan.view is not None:  # Python's own semantics of a sub-list edited in place
+                    r = range(len(sub))[plan.view[0]:plan.view[1]]
+                    va, vb = r.start, max(r.start, r.stop)
+                    tgt = sub[va:vb]
+                else:
+                    tgt = sub
+                n = len(tgt)
                 if plan.form == 'slice':
                     s = n if plan.start == 'end' else plan.start
                     t = n if plan.stop == 'end' else plan.stop
-                    sub[s:t] = new
+                    tgt[s:t] = new
                 elif plan.form == 'one':
-                    sub[plan.idx] = new[0]
+                    tgt[plan.idx] = new[0]
                 else:
-                    del sub[plan.idx]
+                    del tgt[plan.idx]
+                if plan.view is not None:
+                    sub[va:vb] = tgt
                 lst[plan.lo:] = sub
         else:
             setattr(node, f, _copy.deepcopy(elems[0][0]) if elems else None)
@@ -572,7 +655,7 @@ def build_code(plan: Plan, node, o: Oracle, rng):
     # one / opt
     if not srcs:
         return None, True
-    s = srcs[0]
+    s = _one_src(plan, o, srcs[0])
     if cf == 'src' or o.elems is None or et in ('identifier', 'dictelt'):
         return s, True
     if cf == 'ast':
@@ -615,8 +698,38 @@ ENTRY_DEL = ('remove', 'view_del', 'cut', 'replace_none', 'put_none')
 ENTRY_OPT = ('put', 'attr', 'replace')
 
 
+def choose_entry_view(plan: Plan, rng):
+    k = len(plan.srcs)
+    if plan.form == 'slice':
+        ents = ['sv_set']
+        if k == 0:
+            ents += ['sv_del']
+            if plan.start == 0 and plan.stop == 'end':
+                ents += ['sv_remove', 'sv_cut', 'sv_remove']
+        if plan.start == 0 and plan.stop == 'end' and k:
+            ents += ['sv_replace', 'sv_replace']
+        if plan.start == plan.stop and k >= 1:
+            ents += ['sv_insert', 'sv_insert', 'sv_insert']
+            if plan.start == 'end':
+                ents += ['sv_extend', 'sv_extend']
+            if plan.start == 0:
+                ents += ['sv_prextend', 'sv_prextend']
+            if k == 1:
+                ents += ['sv_insert_one']
+                if plan.start == 'end':
+                    ents += ['sv_append', 'sv_append']
+                if plan.start == 0:
+                    ents += ['sv_prepend', 'sv_prepend']
+        return rng.choice(ents)
+    if plan.form == 'one':
+        return 'sv_set1'
+    return 'sv_del1'
+
+
 def choose_entry(plan: Plan, node, rng):
     n = plan.length
+    if plan.view is not None:
+        return choose_entry_view(plan, rng)
     if plan.form == 'slice':
         ents = ['put_slice', 'put', 'view_set']
         k = len(plan.srcs)
@@ -639,7 +752,7 @@ def choose_entry(plan: Plan, node, rng):
                     ents += ['prepend', 'prepend']
                 ents += ['insert_one']
         return rng.choice(ents)
-    valid_idx = plan.idx is not None and -n <= plan.idx < n and plan.et != 'identifier'
+    valid_idx = plan.idx is not None and -n <= plan.idx < n and plan.et not in ('identifier', 'arglike')
     if plan.corrupt == 'one_false':
         return 'put'
     if plan.form == 'one':
@@ -671,7 +784,39 @@ def execute(plan: Plan, root, o: Oracle, rng):
     fld = plan.field
     lo = plan.lo
     try:
-        if plan.form == 'slice':
+        if plan.view is not None:
+            with FST.options(**opts):
+                sub = getattr(f, fld)[plan.view[0]:plan.view[1]]
+                s, t, i = plan.start, plan.stop, plan.idx
+                if op == 'sv_set':
+                    sub[_pys(s, 1 << 30):_py(t)] = code
+                elif op == 'sv_del':
+                    del sub[_pys(s, 1 << 30):_py(t)]
+                elif op == 'sv_remove':
+                    sub.remove()
+                elif op == 'sv_cut':
+                    sub.cut()
+                elif op == 'sv_replace':
+                    sub.replace(code, one=False)
+                elif op == 'sv_insert':
+                    sub.insert(code, s, one=False)
+                elif op == 'sv_insert_one':
+                    sub.insert(build_one(plan, o), s)
+                elif op == 'sv_extend':
+                    sub.extend(code)
+                elif op == 'sv_prextend':
+                    sub.prextend(code)
+                elif op == 'sv_append':
+                    sub.append(build_one(plan, o))
+                elif op == 'sv_prepend':
+                    sub.prepend(build_one(plan, o))
+                elif op == 'sv_set1':
+                    sub[i] = code
+                elif op == 'sv_del1':
+                    del sub[i]
+                else:
+                    raise AssertionError(op)
+        elif plan.form == 'slice':
             s, t = plan.start, plan.stop
             if op == 'put_slice':
                 f.put_slice(code, s, t, fld, **opts)
@@ -757,8 +902,17 @@ def execute(plan: Plan, root, o: Oracle, rng):
     return None
 
 
+def _one_src(plan, o, s):
+    """Source text of a single element as a valid fragment of the slot's category: a bare `yield` is not a valid
+    argument / base as written (`f(yield)`), it needs its parentheses there."""
+    if o.elems is not None and plan.kind in ('Call', 'ClassDef') and plan.et in ('expr', 'arglike') and \
+            isinstance(o.elems[0][0], (ast.Yield, ast.YieldFrom)) and not s.lstrip().startswith('('):
+        return '(' + s + ')'
+    return s
+
+
 def build_one(plan, o):
-    s = plan.srcs[0]
+    s = _one_src(plan, o, plan.srcs[0])
     if plan.codeform == 'ast' and o.elems is not None and plan.et != 'dictelt' and plan.et != 'identifier':
         return _copy.deepcopy(o.elems[0][0])
     if plan.codeform == 'fst' and o.elems is not None and plan.et in FST_ONE_MODE:
@@ -781,6 +935,8 @@ def documented_refusal(plan: Plan, pre_tree, o: Oracle) -> bool:
     - the real fields Call.args / Call.keywords / ClassDef.bases / ClassDef.keywords of a node that has both
       positional and keyword arglikes are edited through `_args` / `_bases` (d07_views "you can't break syntax ordering
       rules"; the two real lists do not determine the syntax order of the merged list)."""
+    if plan.kind == 'Compare' and plan.field == '_all' and 'op' not in plan.opts:
+        return True  # d06: "If inserting to a Compare an extra operator MUST be added ... or as a separate `op` option"
     if plan.kind in ('Call', 'ClassDef') and plan.field in ('args', 'keywords', 'bases') and pre_tree is not None:
         node = node_at(pre_tree, plan.path)
         pos = node.args if plan.kind == 'Call' else node.bases
@@ -795,6 +951,8 @@ def make_event(plan: Plan, o: Oracle, exc, post, pre_tree) -> dict:
     e = {
         'call': 'edit', 'op': plan.op, 'form': plan.form, 'path': path_json(plan.path), 'field': plan.field,
         'start': bound(plan.start), 'stop': bound(plan.stop), 'idx': bound(plan.idx),
+        'isView': plan.view is not None,
+        'vlo': bound(plan.view[0] if plan.view else None), 'vhi': bound(plan.view[1] if plan.view else None),
         'newS': o.newS, 'law': o.law, 'expValid': o.expValid, 'expS': o.expS, 'expCompiles': o.expCompiles,
         'outcome': 'ok' if exc is None else 'raise',
         'exc': '' if exc is None else type(exc).__name__,
@@ -802,7 +960,8 @@ def make_event(plan: Plan, o: Oracle, exc, post, pre_tree) -> dict:
         'documented': documented_refusal(plan, pre_tree, o) if exc is not None else False,
         'opts': opts_json(plan.opts), 'codeform': plan.codeform, 'kind': plan.kind,
         'srcs': [s.encode('ascii', 'backslashreplace').decode() for s in plan.srcs], 'note': o.note,
-        'codePar': any(s.lstrip().startswith('(') for s in plan.srcs), 'corrupt': plan.corrupt or '',
+        'codePar': any(s.lstrip().startswith('(') for s in plan.srcs),
+        'codePar0': bool(plan.srcs) and plan.srcs[0].lstrip().startswith('('), 'corrupt': plan.corrupt or '',
         'post': post,
     }
     return e
